@@ -216,6 +216,11 @@ def scenarios():
                               script=lambda: [
         ev_request('c2', 'blockchain.scripthash.get_history', [sh('B')]),
         ev_state('block(t1)', blocks=extended([('t1',)]), names=()), T, T, T, T])
+    # the same with a SUBSCRIPTION whose read is in flight (nobody else holds or caches anything)
+    out['lonely-subscribe'] = dict(subs={'c1': (), 'c2': ()}, mempool0=('t1',), no_warm=True,
+                                   script=lambda: [
+        ev_request('c2', 'blockchain.scripthash.subscribe', [sh('B')], tag='sub'),
+        ev_state('block(t1)', blocks=extended([('t1',)]), names=()), T, T, T, T])
     # a history read in flight across the block that changes it, then a fresh subscription
     out['late-subscribe'] = dict(subs={'c1': ('A',), 'c2': ()}, mempool0=('t1',), script=lambda: [
         ev_request('c2', 'blockchain.scripthash.get_history', [sh('A')]),
@@ -467,6 +472,40 @@ def judge_c10(run, res, clients=('c2', 'fresh')):
         r = c.call('blockchain.transaction.id_from_pos', [tip + 1, 0, False])
         if 'error' not in r:
             failures.append(('id_from_pos-beyond-tip-answered', dict(client=cname)))
+    # the operator's view of the same data: the LocalRPC `query` command (the limit caps the
+    # lines printed, never the balance)
+    rpc = s.x_clients.get('rpc')
+    for key in (WATCH[:3] if rpc is not None else ()):
+        script = SCRIPTS[key]
+        conf = [(t[::-1].hex(), h) for t, h in ref.history(script)]
+        utx = {(t[::-1].hex(), i, h, v) for t, i, v, h in ref.utxos_of(script)}
+        for limit in (1, 2, 1000):
+            r = rpc.call('query', [[script.hex()], limit])
+            res.count('queries_judged')
+            lines = r.get('result')
+            bad = None
+            if not isinstance(lines, list):
+                bad = 'no-result'
+            else:
+                hist = [l for l in lines if l.startswith('History #')]
+                ulines = [l for l in lines if l.startswith('UTXO #')]
+                bal = [l for l in lines if l.startswith('Balance:')]
+                want_h = [f'height {h:,d} tx_hash {t}' for t, h in conf[:limit]]
+                if [l.split(': ', 1)[1] for l in hist] != want_h:
+                    bad = 'history-lines'
+                got_u = set()
+                for l in ulines:
+                    w_ = l.replace(',', '').split()
+                    got_u.add((w_[3], int(w_[5]), int(w_[7]), int(w_[9])))
+                if not bad and (len(ulines) != min(limit, len(utx)) or not got_u <= utx):
+                    bad = 'utxo-lines'
+                if not bad and (len(bal) != 1 or round(float(bal[0].split()[1].replace(',', '')) * 1e8)
+                                != ref.balance(script)):
+                    bad = 'balance-line'
+            if bad:
+                failures.append(('stale-admin-query:' + bad, dict(script=key, limit=limit,
+                                                                  got=str(lines)[:300])))
+                break
     return failures
 
 
